@@ -1,16 +1,16 @@
-(* DenseEvalMain.v — the dense-time offline visitors of the untimed fragment (model DenseEval.deval,
-   including the unbounded since / until) compute the tick semantics rhoZ: for strictly increasing
-   input signals the returned sample list is strictly increasing, starts at the start of the
-   sub-formula's domain and denotes rhoZ there. *)
+(* DenseEvalMain.v — the dense-time offline visitor (model DenseVisitor.deval: every operator the monitor supports,
+   bounded operators included) computes the tick semantics rhoZ: for strictly increasing input signals the returned
+   sample list is strictly increasing, starts at the start of the sub-formula's domain and denotes rhoZ there.
+   Formulas with a bounded operator need every input signal to start at time 0 (the visitors of the bounded
+   operators assume it: known finding KF-C04-late-start); untimed formulas do not. *)
 From Coq Require Import List Bool Arith ZArith Lia.
-From RV Require Import Val Syntax Rho ListFacts OfflineCorrect Online Dense DenseSem DenseFacts DenseMerge DenseMergeCorrect DenseMergeG DenseMergeGCorrect DenseEval DenseEvalCorrect DenseSinceCorrect.
+From RV Require Import Val Syntax Rho ListFacts OfflineCorrect Online Dense DenseSem DenseFacts DenseMerge DenseMergeCorrect DenseMergeG DenseMergeGCorrect DenseEval DenseEvalCorrect DenseSinceCorrect DenseWin DenseWinCorrect DenseWinFut DenseTimedLaws DenseTimedCorrect DenseVisitor.
 Import ListNotations.
 Local Open Scope Z_scope.
 
 Section EvalMain.
 Context {VS : Val} (AR : Arith VS).
 
-(* ---------------- the theorem ---------------- *)
 Let pk : formula -> formula -> pkind := fun _ _ => PStd.
 Hypothesis SubNeg : forall l r, neg (a2 AR Sub l r) = a2 AR Sub r l.
 Variable W : list dsig.
@@ -27,15 +27,36 @@ Fixpoint untimed (p : formula) : bool :=
   | _ => false
   end.
 
+(* the operators of the dense-time monitor: everything but prev / next / rise / fall / precedes *)
+Fixpoint dfrag (p : formula) : bool :=
+  match p with
+  | Var _ | Const _ => true
+  | A1 _ f | Not f | Once f | Hist f | Ev f | Alw f | OnceT _ _ f | HistT _ _ f | EvT _ _ f | AlwT _ _ f => dfrag f
+  | A2 _ f g | Pred _ f g | And f g | Or f g | Implies f g | Iff f g | Xor f g | Since f g | Until f g
+  | SinceT _ _ f g | UntilT _ _ f g => dfrag f && dfrag g
+  | _ => false
+  end.
+
+Lemma untimed_dfrag p : untimed p = true -> dfrag p = true.
+Proof.
+  induction p; intros H; cbn [untimed] in H; try discriminate; cbn [dfrag]; try reflexivity; try (apply IHp; exact H);
+  apply andb_prop in H as [H1 H2]; rewrite IHp1, IHp2 by assumption; reflexivity.
+Qed.
+Lemma untimed_wf p : untimed p = true -> wf_bounds p = true.
+Proof.
+  induction p; intros H; cbn [untimed] in H; try discriminate; cbn [wf_bounds]; try reflexivity; try (apply IHp; exact H);
+  apply andb_prop in H as [H1 H2]; rewrite IHp1, IHp2 by assumption; reflexivity.
+Qed.
+
 Lemma in_W x : (x < length W)%nat -> dsorted (nth x W []) /\ nth x W [] <> [] /\ ub tend (nth x W []).
 Proof. intros H. apply HW. apply nth_In. exact H. Qed.
 
 Lemma start_le_tend s : dsorted s -> s <> [] -> ub tend s -> start s <= tend.
 Proof. intros _ N U. destruct s as [|[a v] r]; [congruence|]. cbn [start]. apply (U a v). left. reflexivity. Qed.
 
-Lemma dstart_le_tend p : untimed p = true -> (nvars p <= length W)%nat -> dstart W p <= tend.
+Lemma dstart_le_tend p : dfrag p = true -> (nvars p <= length W)%nat -> dstart W p <= tend.
 Proof.
-  induction p; intros Hu Hn; cbn [untimed] in Hu; try discriminate; cbn [nvars] in Hn; cbn [dstart];
+  induction p; intros Hu Hn; cbn [dfrag] in Hu; try discriminate; cbn [nvars] in Hn; cbn [dstart];
   try (apply andb_prop in Hu as [Hu1 Hu2]); try lia; try (apply IHp; assumption);
   try (apply Z.max_lub; [apply IHp1|apply IHp2]; try assumption; lia).
   destruct (in_W x ltac:(lia)) as (S & N & U). apply start_le_tend; assumption.
@@ -46,78 +67,220 @@ Proof.
   try (apply andb_prop in Hu as [Hu1 Hu2]); try reflexivity; try (apply IHp; assumption);
   rewrite IHp1, IHp2 by assumption; reflexivity.
 Qed.
+Lemma bsum_nonneg p : 0 <= bsum p.
+Proof. induction p; cbn [bsum]; lia. Qed.
 
-(* after the last break-point of the inputs nothing changes any more *)
-Lemma rhoZ_const_after p : untimed p = true -> (nvars p <= length W)%nat -> forall u, tend <= u -> RZ p u = RZ p tend.
+(* ---------------- after tend + bsum p nothing changes any more ---------------- *)
+Definition const_from (F : Z -> V) (c : Z) : Prop := forall u, c <= u -> F u = F c.
+Lemma const_weaken F c c' : const_from F c -> c <= c' -> const_from F c'.
+Proof. intros H Hc u Hu. rewrite (H u) by lia. rewrite (H c') by lia. reflexivity. Qed.
+Lemma zmax_const (f : Z -> V) lo hi v : lo <= hi -> (forall u, lo <= u <= hi -> f u = v) -> zmax f lo hi = v.
 Proof.
-  induction p; intros Hu Hn u Hge; cbn [untimed] in Hu; try discriminate; cbn [nvars] in Hn;
-  try (apply andb_prop in Hu as [Hu1 Hu2]); cbn [rhoZ];
-  try (rewrite IHp by (try assumption; lia)); try (rewrite IHp1, IHp2 by (try assumption; lia)); try reflexivity.
-  - (* Var *) destruct (in_W x ltac:(lia)) as (S & N & U). unfold den. rewrite (den_const_after _ tend U u Hge). reflexivity.
-  - (* Once *) pose proof (dstart_le_tend p Hu Hn). cbn [dstart]. apply zmax_tail_const; [lia|]. intros u' Hu'. apply IHp; try assumption; lia.
-  - (* Hist *) pose proof (dstart_le_tend p Hu Hn). cbn [dstart]. apply zmin_tail_const; [lia|]. intros u' Hu'. apply IHp; try assumption; lia.
-  - (* Since *) apply (Sv_const_after (RZ p1) (RZ p2) (dstart W (Since p1 p2)) tend); [|intros u' Hu'; split; [apply IHp1|apply IHp2]; try assumption; lia|exact Hge].
-    cbn [dstart]. pose proof (dstart_le_tend p1 Hu1 ltac:(lia)). pose proof (dstart_le_tend p2 Hu2 ltac:(lia)). lia.
-  - (* Ev *) rewrite (bsum_untimed p Hu), Z.add_0_r. replace (Z.max u tend) with u by lia. replace (Z.max tend tend) with tend by lia.
-    rewrite !zmax_one. apply IHp; try assumption.
-  - (* Alw *) rewrite (bsum_untimed p Hu), Z.add_0_r. replace (Z.max u tend) with u by lia. replace (Z.max tend tend) with tend by lia.
-    rewrite !zmin_one. apply IHp; try assumption.
-  - (* Until *) cbn [bsum]. rewrite (bsum_untimed p1 Hu1), (bsum_untimed p2 Hu2), Z.add_0_r.
-    apply (Uv_const_after (RZ p1) (RZ p2) tend); [|exact Hge].
-    intros u' Hu'; split; [apply IHp1|apply IHp2]; try assumption; lia.
+  intros H Hc. apply eq_by_ub. intros z. rewrite zmax_ub. split.
+  - intros Hz. rewrite <- (Hc lo) by lia. apply Hz. lia.
+  - intros Hz u Hu. rewrite Hc by lia. exact Hz.
+Qed.
+Lemma zmin_const (f : Z -> V) lo hi v : lo <= hi -> (forall u, lo <= u <= hi -> f u = v) -> zmin f lo hi = v.
+Proof.
+  intros H Hc. apply eq_by_lb. intros z. rewrite zmin_lb. split.
+  - intros Hz. rewrite <- (Hc lo) by lia. apply Hz. lia.
+  - intros Hz u Hu. rewrite Hc by lia. exact Hz.
+Qed.
+
+Lemma rhoZ_const p : dfrag p = true -> wf_bounds p = true -> (nvars p <= length W)%nat -> const_from (RZ p) (tend + bsum p).
+Proof.
+  induction p; intros Hu Hb Hn; cbn [dfrag] in Hu; try discriminate; cbn [nvars] in Hn; cbn [wf_bounds] in Hb; cbn [bsum];
+  repeat match goal with H : _ && _ = true |- _ => apply andb_prop in H; destruct H end;
+  repeat match goal with H : (_ <=? _)%nat = true |- _ => apply Nat.leb_le in H end.
+  - (* Var *) rewrite Z.add_0_r. intros u Hge. cbn [rhoZ]. destruct (in_W x ltac:(lia)) as (S & N & U). unfold den. rewrite (den_const_after _ tend U u Hge). reflexivity.
+  - intros u _. reflexivity.
+  - (* A1 *) intros u Hge. cbn [rhoZ]. rewrite (IHp Hu Hb Hn u Hge). reflexivity.
+  - (* A2 *) pose proof (bsum_nonneg p1). pose proof (bsum_nonneg p2). intros u Hge. cbn [rhoZ].
+    rewrite (const_weaken _ _ (tend + (bsum p1 + bsum p2)) (IHp1 ltac:(assumption) ltac:(assumption) ltac:(lia)) ltac:(lia) u Hge).
+    rewrite (const_weaken _ _ (tend + (bsum p1 + bsum p2)) (IHp2 ltac:(assumption) ltac:(assumption) ltac:(lia)) ltac:(lia) u Hge). reflexivity.
+  - pose proof (bsum_nonneg p1). pose proof (bsum_nonneg p2). intros u Hge. cbn [rhoZ].
+    rewrite (const_weaken _ _ (tend + (bsum p1 + bsum p2)) (IHp1 ltac:(assumption) ltac:(assumption) ltac:(lia)) ltac:(lia) u Hge).
+    rewrite (const_weaken _ _ (tend + (bsum p1 + bsum p2)) (IHp2 ltac:(assumption) ltac:(assumption) ltac:(lia)) ltac:(lia) u Hge). reflexivity.
+  - (* Not *) intros u Hge. cbn [rhoZ]. rewrite (IHp Hu Hb Hn u Hge). reflexivity.
+  - pose proof (bsum_nonneg p1). pose proof (bsum_nonneg p2). intros u Hge. cbn [rhoZ].
+    rewrite (const_weaken _ _ (tend + (bsum p1 + bsum p2)) (IHp1 ltac:(assumption) ltac:(assumption) ltac:(lia)) ltac:(lia) u Hge).
+    rewrite (const_weaken _ _ (tend + (bsum p1 + bsum p2)) (IHp2 ltac:(assumption) ltac:(assumption) ltac:(lia)) ltac:(lia) u Hge). reflexivity.
+  - pose proof (bsum_nonneg p1). pose proof (bsum_nonneg p2). intros u Hge. cbn [rhoZ].
+    rewrite (const_weaken _ _ (tend + (bsum p1 + bsum p2)) (IHp1 ltac:(assumption) ltac:(assumption) ltac:(lia)) ltac:(lia) u Hge).
+    rewrite (const_weaken _ _ (tend + (bsum p1 + bsum p2)) (IHp2 ltac:(assumption) ltac:(assumption) ltac:(lia)) ltac:(lia) u Hge). reflexivity.
+  - pose proof (bsum_nonneg p1). pose proof (bsum_nonneg p2). intros u Hge. cbn [rhoZ].
+    rewrite (const_weaken _ _ (tend + (bsum p1 + bsum p2)) (IHp1 ltac:(assumption) ltac:(assumption) ltac:(lia)) ltac:(lia) u Hge).
+    rewrite (const_weaken _ _ (tend + (bsum p1 + bsum p2)) (IHp2 ltac:(assumption) ltac:(assumption) ltac:(lia)) ltac:(lia) u Hge). reflexivity.
+  - pose proof (bsum_nonneg p1). pose proof (bsum_nonneg p2). intros u Hge. cbn [rhoZ].
+    rewrite (const_weaken _ _ (tend + (bsum p1 + bsum p2)) (IHp1 ltac:(assumption) ltac:(assumption) ltac:(lia)) ltac:(lia) u Hge).
+    rewrite (const_weaken _ _ (tend + (bsum p1 + bsum p2)) (IHp2 ltac:(assumption) ltac:(assumption) ltac:(lia)) ltac:(lia) u Hge). reflexivity.
+  - pose proof (bsum_nonneg p1). pose proof (bsum_nonneg p2). intros u Hge. cbn [rhoZ].
+    rewrite (const_weaken _ _ (tend + (bsum p1 + bsum p2)) (IHp1 ltac:(assumption) ltac:(assumption) ltac:(lia)) ltac:(lia) u Hge).
+    rewrite (const_weaken _ _ (tend + (bsum p1 + bsum p2)) (IHp2 ltac:(assumption) ltac:(assumption) ltac:(lia)) ltac:(lia) u Hge). reflexivity.
+  - (* Once *) intros u Hge. cbn [rhoZ]. pose proof (dstart_le_tend p Hu Hn). pose proof (bsum_nonneg p). cbn [dstart].
+    apply zmax_tail_const; [lia|]. intros u' Hu'. apply (IHp Hu Hb Hn). lia.
+  - (* Hist *) intros u Hge. cbn [rhoZ]. pose proof (dstart_le_tend p Hu Hn). pose proof (bsum_nonneg p). cbn [dstart].
+    apply zmin_tail_const; [lia|]. intros u' Hu'. apply (IHp Hu Hb Hn). lia.
+  - (* Since *) pose proof (bsum_nonneg p1). pose proof (bsum_nonneg p2). intros u Hge. cbn [rhoZ].
+    apply (Sv_const_after (RZ p1) (RZ p2) (dstart W (Since p1 p2)) (tend + (bsum p1 + bsum p2))); [| |exact Hge].
+    + cbn [dstart]. pose proof (dstart_le_tend p1 ltac:(assumption) ltac:(lia)). pose proof (dstart_le_tend p2 ltac:(assumption) ltac:(lia)). lia.
+    + intros u' Hu'. split; [apply (const_weaken _ _ _ (IHp1 ltac:(assumption) ltac:(assumption) ltac:(lia)))|apply (const_weaken _ _ _ (IHp2 ltac:(assumption) ltac:(assumption) ltac:(lia)))]; lia.
+  - (* Ev *) intros u Hge. cbn [rhoZ]. replace (Z.max u (tend + bsum p)) with u by lia. replace (Z.max (tend + bsum p) (tend + bsum p)) with (tend + bsum p) by lia.
+    rewrite !zmax_one. apply (IHp Hu Hb Hn). exact Hge.
+  - (* Alw *) intros u Hge. cbn [rhoZ]. replace (Z.max u (tend + bsum p)) with u by lia. replace (Z.max (tend + bsum p) (tend + bsum p)) with (tend + bsum p) by lia.
+    rewrite !zmin_one. apply (IHp Hu Hb Hn). exact Hge.
+  - (* Until *) pose proof (bsum_nonneg p1). pose proof (bsum_nonneg p2). intros u Hge. cbn [rhoZ bsum].
+    apply (Uv_const_after (RZ p1) (RZ p2) (tend + (bsum p1 + bsum p2))); [|exact Hge].
+    intros u' Hu'. split; [apply (const_weaken _ _ _ (IHp1 ltac:(assumption) ltac:(assumption) ltac:(lia)))|apply (const_weaken _ _ _ (IHp2 ltac:(assumption) ltac:(assumption) ltac:(lia)))]; lia.
+  - (* OnceT *) pose proof (bsum_nonneg p). pose proof (dstart_le_tend p ltac:(assumption) Hn) as Hd. pose proof (IHp ltac:(assumption) ltac:(assumption) Hn) as C.
+    assert (Hall : forall u, tend + (Z.of_nat e + bsum p) <= u -> RZ (OnceT b e p) u = RZ p (tend + bsum p)).
+    { intros u Hge. cbn [rhoZ dstart]. unfold zb. destruct (Z.ltb_spec (u - Z.of_nat b) (dstart W p)); [lia|].
+      apply zmax_const; [lia|]. intros u' Hu'. apply C. lia. }
+    intros u Hge. rewrite (Hall u Hge), (Hall _ (Z.le_refl _)). reflexivity.
+  - (* HistT *) pose proof (bsum_nonneg p). pose proof (dstart_le_tend p ltac:(assumption) Hn) as Hd. pose proof (IHp ltac:(assumption) ltac:(assumption) Hn) as C.
+    assert (Hall : forall u, tend + (Z.of_nat e + bsum p) <= u -> RZ (HistT b e p) u = RZ p (tend + bsum p)).
+    { intros u Hge. cbn [rhoZ dstart]. unfold zb. destruct (Z.ltb_spec (u - Z.of_nat b) (dstart W p)); [lia|].
+      apply zmin_const; [lia|]. intros u' Hu'. apply C. lia. }
+    intros u Hge. rewrite (Hall u Hge), (Hall _ (Z.le_refl _)). reflexivity.
+  - (* SinceT *) pose proof (bsum_nonneg p1). pose proof (bsum_nonneg p2).
+    pose proof (dstart_le_tend p1 ltac:(assumption) ltac:(lia)) as Hd1. pose proof (dstart_le_tend p2 ltac:(assumption) ltac:(lia)) as Hd2.
+    pose proof (const_weaken _ _ (tend + (bsum p1 + bsum p2)) (IHp1 ltac:(assumption) ltac:(assumption) ltac:(lia)) ltac:(lia)) as C1.
+    pose proof (const_weaken _ _ (tend + (bsum p1 + bsum p2)) (IHp2 ltac:(assumption) ltac:(assumption) ltac:(lia)) ltac:(lia)) as C2.
+    assert (Hall : forall u, tend + (Z.of_nat e + bsum p1 + bsum p2) <= u ->
+               RZ (SinceT b e p1 p2) u = vmin (RZ p2 (tend + (bsum p1 + bsum p2))) (RZ p1 (tend + (bsum p1 + bsum p2)))).
+    { intros u Hge. cbn [rhoZ dstart]. unfold zb. destruct (Z.ltb_spec (u - Z.of_nat b) (Z.max (dstart W p1) (dstart W p2))); [lia|].
+      apply zmax_const; [lia|]. intros u' Hu'. rewrite (C2 u') by lia. f_equal. apply zmin_const; [lia|]. intros w Hw. apply C1. lia. }
+    intros u Hge. rewrite (Hall u Hge), (Hall _ (Z.le_refl _)). reflexivity.
+  - (* EvT *) pose proof (bsum_nonneg p). pose proof (IHp ltac:(assumption) ltac:(assumption) Hn) as C.
+    assert (Hall : forall u, tend + (Z.of_nat e + bsum p) <= u -> RZ (EvT b e p) u = RZ p (tend + bsum p)).
+    { intros u Hge. cbn [rhoZ]. unfold zb. apply zmax_const; [lia|]. intros u' Hu'. apply C. lia. }
+    intros u Hge. rewrite (Hall u Hge), (Hall _ (Z.le_refl _)). reflexivity.
+  - (* AlwT *) pose proof (bsum_nonneg p). pose proof (IHp ltac:(assumption) ltac:(assumption) Hn) as C.
+    assert (Hall : forall u, tend + (Z.of_nat e + bsum p) <= u -> RZ (AlwT b e p) u = RZ p (tend + bsum p)).
+    { intros u Hge. cbn [rhoZ]. unfold zb. apply zmin_const; [lia|]. intros u' Hu'. apply C. lia. }
+    intros u Hge. rewrite (Hall u Hge), (Hall _ (Z.le_refl _)). reflexivity.
+  - (* UntilT *) pose proof (bsum_nonneg p1). pose proof (bsum_nonneg p2).
+    pose proof (const_weaken _ _ (tend + (bsum p1 + bsum p2)) (IHp1 ltac:(assumption) ltac:(assumption) ltac:(lia)) ltac:(lia)) as C1.
+    pose proof (const_weaken _ _ (tend + (bsum p1 + bsum p2)) (IHp2 ltac:(assumption) ltac:(assumption) ltac:(lia)) ltac:(lia)) as C2.
+    assert (Hall : forall u, tend + (Z.of_nat e + bsum p1 + bsum p2) <= u ->
+               RZ (UntilT b e p1 p2) u = vmin (RZ p2 (tend + (bsum p1 + bsum p2))) (RZ p1 (tend + (bsum p1 + bsum p2)))).
+    { intros u Hge. cbn [rhoZ]. unfold zb. apply zmax_const; [lia|]. intros u' Hu'. rewrite (C2 u') by lia. f_equal.
+      apply zmin_const; [lia|]. intros w Hw. apply C1. lia. }
+    intros u Hge. rewrite (Hall u Hge), (Hall _ (Z.le_refl _)). reflexivity.
 Qed.
 
 Lemma pred_of_diff_std c l r : pred_of_diff AR c (a2 AR Sub l r) = pred_std AR c l r.
 Proof. destruct c; cbn [pred_of_diff pred_std]; try reflexivity; apply SubNeg. Qed.
 
-Theorem deval_correct p : untimed p = true -> (nvars p <= length W)%nat ->
+(* ---------------- the theorem ---------------- *)
+Definition starts0 : Prop := forall s, In s W -> start s = 0.
+
+Lemma dstart0 p : starts0 -> (nvars p <= length W)%nat -> dstart W p = 0.
+Proof.
+  intros H0. induction p; intros Hn; cbn [nvars] in Hn; cbn [dstart]; try reflexivity; try (apply IHp; exact Hn);
+  try (rewrite IHp1, IHp2 by lia; reflexivity).
+  apply H0. apply nth_In. lia.
+Qed.
+
+Theorem deval_correct p : dfrag p = true -> wf_bounds p = true -> (untimed p = true \/ starts0) -> (nvars p <= length W)%nat ->
   exists s, deval AR p W = Some s /\ good s (dstart W p) (RZ p).
 Proof.
-  induction p; intros Hu Hn; cbn [untimed] in Hu; try discriminate; cbn [nvars] in Hn;
-  try (apply andb_prop in Hu as [Hu1 Hu2]); cbn [deval dstart].
+  induction p; intros Hu Hb Hor Hn; cbn [dfrag] in Hu; try discriminate; cbn [nvars] in Hn; cbn [wf_bounds] in Hb;
+  repeat match goal with H : _ && _ = true |- _ => apply andb_prop in H; destruct H end;
+  repeat match goal with H : (_ <=? _)%nat = true |- _ => apply Nat.leb_le in H end;
+  cbn [deval dstart].
   - (* Var *) destruct (in_W x ltac:(lia)) as (S & N & U). exists (nth x W []). split; [reflexivity|]. apply good_self; assumption.
   - (* Const *) exists [(0, c)]. split; [reflexivity|]. split; [cbn; auto|]. split; [discriminate|]. split; [reflexivity|].
     intros t. cbn [den_opt rhoZ]. destruct (Z.leb_spec 0 t); destruct (Z.ltb_spec t 0); try lia; reflexivity.
-  - (* A1 *) destruct (IHp Hu Hn) as (s & E & G). rewrite E. eexists. split; [reflexivity|]. apply (good_dmap (a1 AR o) s _ _ G).
-  - (* A2 *) destruct (IHp1 Hu1 ltac:(lia)) as (s1 & E1 & G1), (IHp2 Hu2 ltac:(lia)) as (s2 & E2 & G2). rewrite E1, E2. cbn [obind].
+  - (* A1 *) destruct (IHp Hu Hb Hor Hn) as (s & E & G). rewrite E. eexists. split; [reflexivity|]. apply (good_dmap (a1 AR o) s _ _ G).
+  - (* A2 *) assert (O1 : untimed p1 = true \/ starts0) by (destruct Hor as [Hor|Hor]; [cbn [untimed] in Hor; apply andb_prop in Hor; left; tauto|right; exact Hor]).
+    assert (O2 : untimed p2 = true \/ starts0) by (destruct Hor as [Hor|Hor]; [cbn [untimed] in Hor; apply andb_prop in Hor; left; tauto|right; exact Hor]).
+    destruct (IHp1 ltac:(assumption) ltac:(assumption) O1 ltac:(lia)) as (s1 & E1 & G1), (IHp2 ltac:(assumption) ltac:(assumption) O2 ltac:(lia)) as (s2 & E2 & G2). rewrite E1, E2. cbn [obind].
     destruct (good_isect (a2 AR o) _ _ _ _ _ _ G1 G2) as (out & E & G). exists out. split; [exact E|exact G].
-  - (* Pred *) destruct (IHp1 Hu1 ltac:(lia)) as (s1 & E1 & G1), (IHp2 Hu2 ltac:(lia)) as (s2 & E2 & G2). rewrite E1, E2. cbn [obind].
+  - (* Pred *) assert (O1 : untimed p1 = true \/ starts0) by (destruct Hor as [Hor|Hor]; [cbn [untimed] in Hor; apply andb_prop in Hor; left; tauto|right; exact Hor]).
+    assert (O2 : untimed p2 = true \/ starts0) by (destruct Hor as [Hor|Hor]; [cbn [untimed] in Hor; apply andb_prop in Hor; left; tauto|right; exact Hor]).
+    destruct (IHp1 ltac:(assumption) ltac:(assumption) O1 ltac:(lia)) as (s1 & E1 & G1), (IHp2 ltac:(assumption) ltac:(assumption) O2 ltac:(lia)) as (s2 & E2 & G2). rewrite E1, E2. cbn [obind].
     destruct (good_isect (a2 AR Sub) _ _ _ _ _ _ G1 G2) as (out & E & G). rewrite E. cbn [option_map]. eexists. split; [reflexivity|].
     apply good_dedup. eapply good_ext; [apply (good_dmap (pred_of_diff AR c) out _ _ G)|].
     intros t _. cbn [rhoZ pred_val pk]. apply pred_of_diff_std.
-  - (* Not *) destruct (IHp Hu Hn) as (s & E & G). rewrite E. eexists. split; [reflexivity|]. apply (good_dmap neg s _ _ G).
-  - destruct (IHp1 Hu1 ltac:(lia)) as (s1 & E1 & G1), (IHp2 Hu2 ltac:(lia)) as (s2 & E2 & G2). rewrite E1, E2. cbn [obind].
+  - (* Not *) destruct (IHp Hu Hb Hor Hn) as (s & E & G). rewrite E. eexists. split; [reflexivity|]. apply (good_dmap neg s _ _ G).
+  - assert (O1 : untimed p1 = true \/ starts0) by (destruct Hor as [Hor|Hor]; [cbn [untimed] in Hor; apply andb_prop in Hor; left; tauto|right; exact Hor]).
+    assert (O2 : untimed p2 = true \/ starts0) by (destruct Hor as [Hor|Hor]; [cbn [untimed] in Hor; apply andb_prop in Hor; left; tauto|right; exact Hor]).
+    destruct (IHp1 ltac:(assumption) ltac:(assumption) O1 ltac:(lia)) as (s1 & E1 & G1), (IHp2 ltac:(assumption) ltac:(assumption) O2 ltac:(lia)) as (s2 & E2 & G2). rewrite E1, E2. cbn [obind].
     destruct (good_isect vmin _ _ _ _ _ _ G1 G2) as (out & E & G). exists out. split; [exact E|exact G].
-  - destruct (IHp1 Hu1 ltac:(lia)) as (s1 & E1 & G1), (IHp2 Hu2 ltac:(lia)) as (s2 & E2 & G2). rewrite E1, E2. cbn [obind].
+  - assert (O1 : untimed p1 = true \/ starts0) by (destruct Hor as [Hor|Hor]; [cbn [untimed] in Hor; apply andb_prop in Hor; left; tauto|right; exact Hor]).
+    assert (O2 : untimed p2 = true \/ starts0) by (destruct Hor as [Hor|Hor]; [cbn [untimed] in Hor; apply andb_prop in Hor; left; tauto|right; exact Hor]).
+    destruct (IHp1 ltac:(assumption) ltac:(assumption) O1 ltac:(lia)) as (s1 & E1 & G1), (IHp2 ltac:(assumption) ltac:(assumption) O2 ltac:(lia)) as (s2 & E2 & G2). rewrite E1, E2. cbn [obind].
     destruct (good_isect vmax _ _ _ _ _ _ G1 G2) as (out & E & G). exists out. split; [exact E|exact G].
-  - destruct (IHp1 Hu1 ltac:(lia)) as (s1 & E1 & G1), (IHp2 Hu2 ltac:(lia)) as (s2 & E2 & G2). rewrite E1, E2. cbn [obind].
+  - assert (O1 : untimed p1 = true \/ starts0) by (destruct Hor as [Hor|Hor]; [cbn [untimed] in Hor; apply andb_prop in Hor; left; tauto|right; exact Hor]).
+    assert (O2 : untimed p2 = true \/ starts0) by (destruct Hor as [Hor|Hor]; [cbn [untimed] in Hor; apply andb_prop in Hor; left; tauto|right; exact Hor]).
+    destruct (IHp1 ltac:(assumption) ltac:(assumption) O1 ltac:(lia)) as (s1 & E1 & G1), (IHp2 ltac:(assumption) ltac:(assumption) O2 ltac:(lia)) as (s2 & E2 & G2). rewrite E1, E2. cbn [obind].
     destruct (good_isect (fun l r => vmax (neg l) r) _ _ _ _ _ _ G1 G2) as (out & E & G). exists out. split; [exact E|exact G].
-  - destruct (IHp1 Hu1 ltac:(lia)) as (s1 & E1 & G1), (IHp2 Hu2 ltac:(lia)) as (s2 & E2 & G2). rewrite E1, E2. cbn [obind].
+  - assert (O1 : untimed p1 = true \/ starts0) by (destruct Hor as [Hor|Hor]; [cbn [untimed] in Hor; apply andb_prop in Hor; left; tauto|right; exact Hor]).
+    assert (O2 : untimed p2 = true \/ starts0) by (destruct Hor as [Hor|Hor]; [cbn [untimed] in Hor; apply andb_prop in Hor; left; tauto|right; exact Hor]).
+    destruct (IHp1 ltac:(assumption) ltac:(assumption) O1 ltac:(lia)) as (s1 & E1 & G1), (IHp2 ltac:(assumption) ltac:(assumption) O2 ltac:(lia)) as (s2 & E2 & G2). rewrite E1, E2. cbn [obind].
     destruct (good_isect (fun l r => neg (a1 AR Abs (a2 AR Sub l r))) _ _ _ _ _ _ G1 G2) as (out & E & G). exists out. split; [exact E|exact G].
-  - destruct (IHp1 Hu1 ltac:(lia)) as (s1 & E1 & G1), (IHp2 Hu2 ltac:(lia)) as (s2 & E2 & G2). rewrite E1, E2. cbn [obind].
+  - assert (O1 : untimed p1 = true \/ starts0) by (destruct Hor as [Hor|Hor]; [cbn [untimed] in Hor; apply andb_prop in Hor; left; tauto|right; exact Hor]).
+    assert (O2 : untimed p2 = true \/ starts0) by (destruct Hor as [Hor|Hor]; [cbn [untimed] in Hor; apply andb_prop in Hor; left; tauto|right; exact Hor]).
+    destruct (IHp1 ltac:(assumption) ltac:(assumption) O1 ltac:(lia)) as (s1 & E1 & G1), (IHp2 ltac:(assumption) ltac:(assumption) O2 ltac:(lia)) as (s2 & E2 & G2). rewrite E1, E2. cbn [obind].
     destruct (good_isect (fun l r => a1 AR Abs (a2 AR Sub l r)) _ _ _ _ _ _ G1 G2) as (out & E & G). exists out. split; [exact E|exact G].
-  - (* Once *) destruct (IHp Hu Hn) as (s & E & G). rewrite E. eexists. split; [reflexivity|]. apply (good_once s _ _ G).
-  - (* Hist *) destruct (IHp Hu Hn) as (s & E & G). rewrite E. eexists. split; [reflexivity|]. apply (good_hist s _ _ G).
-  - (* Since *) destruct (IHp1 Hu1 ltac:(lia)) as (s1 & E1 & G1), (IHp2 Hu2 ltac:(lia)) as (s2 & E2 & G2). rewrite E1, E2. cbn [obind].
+  - (* Once *) destruct (IHp Hu Hb Hor Hn) as (s & E & G). rewrite E. eexists. split; [reflexivity|]. apply (good_once s _ _ G).
+  - (* Hist *) destruct (IHp Hu Hb Hor Hn) as (s & E & G). rewrite E. eexists. split; [reflexivity|]. apply (good_hist s _ _ G).
+  - (* Since *) assert (O1 : untimed p1 = true \/ starts0) by (destruct Hor as [Hor|Hor]; [cbn [untimed] in Hor; apply andb_prop in Hor; left; tauto|right; exact Hor]).
+    assert (O2 : untimed p2 = true \/ starts0) by (destruct Hor as [Hor|Hor]; [cbn [untimed] in Hor; apply andb_prop in Hor; left; tauto|right; exact Hor]).
+    destruct (IHp1 ltac:(assumption) ltac:(assumption) O1 ltac:(lia)) as (s1 & E1 & G1), (IHp2 ltac:(assumption) ltac:(assumption) O2 ltac:(lia)) as (s2 & E2 & G2). rewrite E1, E2. cbn [obind].
     destruct (good_since _ _ _ _ _ _ G1 G2) as (out & E & G). exists out. split; [exact E|exact G].
-  - (* Ev *) destruct (IHp Hu Hn) as (s & E & G). rewrite E. eexists. split; [reflexivity|].
+  - (* Ev *) destruct (IHp Hu Hb Hor Hn) as (s & E & G). rewrite E. eexists. split; [reflexivity|].
     eapply good_ext; [apply (good_ev s _ _ (Z.max (dstart W p) (maxstamp s)) G)|].
     + intros b w Hin. pose proof (ub_maxstamp s b w Hin). lia.
-    + intros t Ht. cbn [rhoZ]. rewrite (bsum_untimed p Hu), Z.add_0_r.
+    + intros t Ht. cbn [rhoZ]. pose proof (bsum_nonneg p). pose proof (dstart_le_tend p Hu Hn).
       apply zmax_far; try lia.
       * intros u Hu'. rewrite (good_const_after s _ _ G u) by lia. rewrite (good_const_after s _ _ G (Z.max t (Z.max (dstart W p) (maxstamp s)))) by lia. reflexivity.
-      * intros u Hu'. rewrite (rhoZ_const_after p Hu Hn u) by lia. rewrite (rhoZ_const_after p Hu Hn (Z.max t tend)) by lia. reflexivity.
-  - (* Alw *) destruct (IHp Hu Hn) as (s & E & G). rewrite E. eexists. split; [reflexivity|].
+      * apply (const_weaken _ _ _ (rhoZ_const p Hu Hb Hn)). lia.
+  - (* Alw *) destruct (IHp Hu Hb Hor Hn) as (s & E & G). rewrite E. eexists. split; [reflexivity|].
     eapply good_ext; [apply (good_alw s _ _ (Z.max (dstart W p) (maxstamp s)) G)|].
     + intros b w Hin. pose proof (ub_maxstamp s b w Hin). lia.
-    + intros t Ht. cbn [rhoZ]. rewrite (bsum_untimed p Hu), Z.add_0_r.
+    + intros t Ht. cbn [rhoZ]. pose proof (bsum_nonneg p). pose proof (dstart_le_tend p Hu Hn).
       apply zmin_far; try lia.
       * intros u Hu'. rewrite (good_const_after s _ _ G u) by lia. rewrite (good_const_after s _ _ G (Z.max t (Z.max (dstart W p) (maxstamp s)))) by lia. reflexivity.
-      * intros u Hu'. rewrite (rhoZ_const_after p Hu Hn u) by lia. rewrite (rhoZ_const_after p Hu Hn (Z.max t tend)) by lia. reflexivity.
-  - (* Until *) destruct (IHp1 Hu1 ltac:(lia)) as (s1 & E1 & G1), (IHp2 Hu2 ltac:(lia)) as (s2 & E2 & G2). rewrite E1, E2. cbn [obind].
-    destruct (good_until _ _ _ _ _ _ tend (fun u Hu' => conj (rhoZ_const_after p1 Hu1 ltac:(lia) u Hu') (rhoZ_const_after p2 Hu2 ltac:(lia) u Hu')) G1 G2) as (out & E & G).
-    exists out. split; [exact E|]. eapply good_ext; [exact G|].
-    intros t Ht. cbn [rhoZ bsum]. rewrite (bsum_untimed p1 Hu1), (bsum_untimed p2 Hu2), Z.add_0_r. reflexivity.
+      * apply (const_weaken _ _ _ (rhoZ_const p Hu Hb Hn)). lia.
+  - (* Until *) assert (O1 : untimed p1 = true \/ starts0) by (destruct Hor as [Hor|Hor]; [cbn [untimed] in Hor; apply andb_prop in Hor; left; tauto|right; exact Hor]).
+    assert (O2 : untimed p2 = true \/ starts0) by (destruct Hor as [Hor|Hor]; [cbn [untimed] in Hor; apply andb_prop in Hor; left; tauto|right; exact Hor]).
+    destruct (IHp1 ltac:(assumption) ltac:(assumption) O1 ltac:(lia)) as (s1 & E1 & G1), (IHp2 ltac:(assumption) ltac:(assumption) O2 ltac:(lia)) as (s2 & E2 & G2). rewrite E1, E2. cbn [obind].
+    pose proof (bsum_nonneg p1). pose proof (bsum_nonneg p2).
+    pose proof (const_weaken _ _ (tend + (bsum p1 + bsum p2)) (rhoZ_const p1 ltac:(assumption) ltac:(assumption) ltac:(lia)) ltac:(lia)) as C1.
+    pose proof (const_weaken _ _ (tend + (bsum p1 + bsum p2)) (rhoZ_const p2 ltac:(assumption) ltac:(assumption) ltac:(lia)) ltac:(lia)) as C2.
+    destruct (good_until _ _ _ _ _ _ (tend + (bsum p1 + bsum p2)) (fun u Hu' => conj (C1 u Hu') (C2 u Hu')) G1 G2) as (out & E & G).
+    exists out. split; [exact E|]. eapply good_ext; [exact G|]. intros t Ht. cbn [rhoZ bsum]. reflexivity.
+  - (* OnceT *) destruct Hor as [Hor|Hs0]; [cbn [untimed] in Hor; discriminate|].
+    destruct (IHp ltac:(assumption) ltac:(assumption) (or_intror Hs0) Hn) as (s & E & G). rewrite E. cbn [obind]. rewrite (dstart0 p Hs0 Hn) in *.
+    destruct (good_once_timed (zb b) (zb e) ltac:(unfold zb; lia) ltac:(unfold zb; lia) s 0 _ G (or_intror eq_refl) ltac:(lia)) as (out & Eo & Go).
+    exists out. split; [exact Eo|]. eapply good_ext; [exact Go|]. intros t Ht. cbn [rhoZ dstart]. rewrite (dstart0 p Hs0 Hn). reflexivity.
+  - (* HistT *) destruct Hor as [Hor|Hs0]; [cbn [untimed] in Hor; discriminate|].
+    destruct (IHp ltac:(assumption) ltac:(assumption) (or_intror Hs0) Hn) as (s & E & G). rewrite E. cbn [obind]. rewrite (dstart0 p Hs0 Hn) in *.
+    destruct (good_hist_timed s (zb b) (zb e) 0 _ ltac:(unfold zb; lia) ltac:(unfold zb; lia) G (or_intror eq_refl) ltac:(lia)) as (out & Eo & Go).
+    exists out. split; [exact Eo|]. eapply good_ext; [exact Go|]. intros t Ht. cbn [rhoZ dstart]. rewrite (dstart0 p Hs0 Hn). reflexivity.
+  - (* SinceT *) destruct Hor as [Hor|Hs0]; [cbn [untimed] in Hor; discriminate|].
+    destruct (IHp1 ltac:(assumption) ltac:(assumption) (or_intror Hs0) ltac:(lia)) as (s1 & E1 & G1), (IHp2 ltac:(assumption) ltac:(assumption) (or_intror Hs0) ltac:(lia)) as (s2 & E2 & G2).
+    rewrite E1, E2. cbn [obind]. rewrite (dstart0 p1 Hs0 ltac:(lia)), (dstart0 p2 Hs0 ltac:(lia)) in *. change (Z.max 0 0) with 0.
+    destruct (good_since_timed s1 _ s2 _ (zb b) (zb e) ltac:(unfold zb; lia) ltac:(unfold zb; lia) G1 G2) as (out & Eo & Go).
+    exists out. split; [exact Eo|]. eapply good_ext; [exact Go|]. intros t Ht. cbn [rhoZ dstart]. rewrite (dstart0 p1 Hs0 ltac:(lia)), (dstart0 p2 Hs0 ltac:(lia)). reflexivity.
+  - (* EvT *) destruct Hor as [Hor|Hs0]; [cbn [untimed] in Hor; discriminate|].
+    destruct (IHp ltac:(assumption) ltac:(assumption) (or_intror Hs0) Hn) as (s & E & G). rewrite E. cbn [obind]. rewrite (dstart0 p Hs0 Hn) in *.
+    destruct (good_ev_timed (zb b) (zb e) ltac:(unfold zb; lia) ltac:(unfold zb; lia) s _ G) as (out & Eo & Go).
+    exists out. split; [exact Eo|]. eapply good_ext; [exact Go|]. intros t Ht. reflexivity.
+  - (* AlwT *) destruct Hor as [Hor|Hs0]; [cbn [untimed] in Hor; discriminate|].
+    destruct (IHp ltac:(assumption) ltac:(assumption) (or_intror Hs0) Hn) as (s & E & G). rewrite E. cbn [obind]. rewrite (dstart0 p Hs0 Hn) in *.
+    destruct (good_alw_timed s (zb b) (zb e) _ ltac:(unfold zb; lia) ltac:(unfold zb; lia) G) as (out & Eo & Go).
+    exists out. split; [exact Eo|]. eapply good_ext; [exact Go|]. intros t Ht. reflexivity.
+  - (* UntilT *) destruct Hor as [Hor|Hs0]; [cbn [untimed] in Hor; discriminate|].
+    destruct (IHp1 ltac:(assumption) ltac:(assumption) (or_intror Hs0) ltac:(lia)) as (s1 & E1 & G1), (IHp2 ltac:(assumption) ltac:(assumption) (or_intror Hs0) ltac:(lia)) as (s2 & E2 & G2).
+    rewrite E1, E2. cbn [obind]. rewrite (dstart0 p1 Hs0 ltac:(lia)), (dstart0 p2 Hs0 ltac:(lia)) in *. change (Z.max 0 0) with 0.
+    pose proof (bsum_nonneg p1). pose proof (bsum_nonneg p2).
+    pose proof (const_weaken _ _ (tend + (bsum p1 + bsum p2)) (rhoZ_const p1 ltac:(assumption) ltac:(assumption) ltac:(lia)) ltac:(lia)) as C1.
+    pose proof (const_weaken _ _ (tend + (bsum p1 + bsum p2)) (rhoZ_const p2 ltac:(assumption) ltac:(assumption) ltac:(lia)) ltac:(lia)) as C2.
+    destruct (good_until_timed s1 _ s2 _ (zb b) (zb e) (tend + (bsum p1 + bsum p2)) ltac:(unfold zb; lia) ltac:(unfold zb; lia) (fun u Hu' => conj (C1 u Hu') (C2 u Hu')) G1 G2) as (out & Eo & Go).
+    exists out. split; [exact Eo|]. eapply good_ext; [exact Go|]. intros t Ht. reflexivity.
 Qed.
 
 End EvalMain.
